@@ -103,6 +103,20 @@ def cases(rng, tier):
             d = base * rng.choice([0.7, 0.97, 1.03, 1.5])
             c["value"] = d if bk == "delta" else (d / frob(M) if frob(M) > 0 else rng.uniform(0, 1))
         out.append(c)
+    # exact ties: signed permutations of diag(sigma) with integer sigma whose tails are perfect squares, budget = a tail exactly
+    # (delta^2 == tail in floating point too), and exact zero singular values under a zero budget: "the smallest rank meeting the budget"
+    TIES = [([5, 2, 2, 1], [3, 1]), ([9, 4, 4, 4, 1], [7, 1]), ([6, 4, 3], [5, 3]), ([20, 12, 5], [13, 5]), ([4, 2, 2, 1, 0, 0], [3, 1, 0]),
+            ([3, 1, 0], [1, 0]), ([2, 2, 0, 0], [2, 0]), ([7, 0, 0], [0]), ([12, 4, 3, 0], [5, 3, 0])]
+    for _ in range(max(20, n2 // 12)):
+        sig, deltas = rng.choice(TIES)
+        K = len(sig)
+        m, n = K + rng.randint(0, 2), K + rng.randint(0, 2)
+        P, Q = rng.sample(range(m), K), rng.sample(range(n), K)
+        M = np.zeros((m, n))
+        for i in range(K):
+            M[P[i], Q[i]] = sig[i] * rng.choice([1.0, -1.0])
+        out.append({"kind": "tie", "M": M.tolist(), "sigma": sig, "delta": rng.choice(deltas), "rmax": rng.choice([None, None, None, 2, 5]),
+                    "left_ortho": rng.random() < 0.5, "alg": rng.choice(["svd", "svd", "eig"]), "budget": rng.choice(["delta", "eps"])})
     for _ in range(n3):
         N = rng.choice([2, 3, 3, 4])
         hi = 5 if N <= 3 else 4
@@ -209,6 +223,51 @@ def run_ranks(ctx, case):
         ctx.count("lossy_case")
     if getattr(ctx, "use_model", False) and not getattr(ctx, "search_only", False):
         pass  # MODEL HOOK: from_tn(r) holds the produced cores/factors
+
+
+def run_tie(ctx, case):
+    """exactly representable singular values and budgets: the rank is decided without any rounding, so it must be EXACTLY the smallest
+    rank whose discarded tail is <= delta^2 (capped by rmax, at least 1)"""
+    M = np.array(case["M"], dtype=np.float64)
+    sig, delta, rmax, alg, lo = case["sigma"], case["delta"], case["rmax"], case["alg"], case["left_ortho"]
+    op = "truncated_svd"
+    ctx.case((op, "tie", tuple(sig), delta, rmax, lo, alg, case["budget"]), True,
+             {"op": op, "fill": "exact tie", "sigma": sig, "delta": delta, "rmax": rmax, "left_ortho": lo, "algorithm": alg, "budget": case["budget"]})
+    ctx.count("op:truncated_svd(exact tie)")
+    tails = [sum(x * x for x in sig[r:]) for r in range(len(sig) + 1)]
+    least = min(r for r in range(len(sig) + 1) if tails[r] <= delta * delta)
+    exp = max(1, min(rmax if rmax is not None else 1 << 30, least))
+    kw = {"left_ortho": lo, "algorithm": alg}
+    if rmax is not None:
+        kw["rmax"] = rmax
+    nM = math.sqrt(tails[0])
+    if case["budget"] == "eps" and delta > 0 and (delta / nM) * nM != float(delta):
+        ctx.count("tie: eps form not exactly representable (skipped)"); return
+    if case["budget"] == "delta" or delta == 0:
+        kw["delta"] = float(delta)
+    else:
+        kw["eps"] = delta / nM
+    res = safe(lambda: tn.truncated_svd(torch.tensor(M, dtype=torch.float64), **kw))
+    if res[0] == "err":
+        report(ctx, case, op, "exact tie", "raised", "raised %s: %s" % (res[1], res[2])); return
+    L, R = [v.detach().double().numpy() for v in res[1]]
+    if not (np.all(np.isfinite(L)) and np.all(np.isfinite(R))):
+        report(ctx, case, op, "exact tie", "non-finite", "non-finite factor entries (sigma=%s, delta=%s, %s)" % (sig, delta, alg)); return
+    r = L.shape[1]
+    # the kernel must have returned the exact singular values for the decision to be rounding-free: check and otherwise discard
+    sv = np.linalg.svd(M, compute_uv=False)
+    if not np.array_equal(np.sort(sv)[::-1][:len(sig)], np.array(sorted(sig, reverse=True), dtype=np.float64)):
+        ctx.count("tie: kernel singular values not exact (discarded)"); return
+    if alg == "eig":
+        # Gram path: eigenvalues of an exactly diagonal Gram matrix are exact as well; exact zeros stay zero
+        pass
+    if r != exp:
+        report(ctx, case, op, "exact tie", "rank", "rank %d, but the smallest rank with tail <= delta^2 is %d (sigma=%s, delta=%s, rmax=%s, %s)"
+               % (r, exp, sig, delta, rmax, alg))
+        return
+    err2 = float(((M - L @ R) ** 2).sum())
+    if abs(err2 - tails[r]) > 1e-9 * max(tails[0], 1.0):
+        report(ctx, case, op, "exact tie", "error", "||M - LR||^2 = %g, tail at rank %d = %g" % (err2, r, tails[r]))
 
 
 def run_tsvd(ctx, case):
@@ -344,7 +403,7 @@ def run_cp(ctx, case):
 
 
 def run_case(ctx, case):
-    {"ranks": run_ranks, "tsvd": run_tsvd, "cp": run_cp}[case["kind"]](ctx, case)
+    {"ranks": run_ranks, "tsvd": run_tsvd, "cp": run_cp, "tie": run_tie}[case["kind"]](ctx, case)
 
 
 # =============================================================================== correspondence with the Lean model (main session)
